@@ -91,7 +91,7 @@ theorem dqT_cap (N : Net L K) (cvals lvals : ValDict K) {Delta : List (List K)} 
   let G : L → Nat → K := fun n i => deltaEntry b n * yL.getD i 0
   have h1 : sumTo N.nN (fun i => Mx.get (ssDQ N cvals lvals Delta) i k * yL.getD i 0)
       = sumTo N.nodes.length (fun i => (N.nodes[i]?).elim 0 (fun n => G n i)) := by
-    apply sumTo_congr
+    apply rhs_sumTo_congr
     intro i hi
     have hi' : i < N.nodes.length := hi
     have hiy : i < N.nY := by unfold Net.nY; omega
@@ -135,7 +135,7 @@ theorem dqT_ind (N : Net L K) (cvals lvals : ValDict K) (Delta : List (List K)) 
   rw [h1, zero_add]
   have h2 : sumTo N.nV (fun j => Mx.get (ssDQ N cvals lvals Delta) (N.nN + j) (cvals.length + k) * yL.getD (N.nN + j) 0)
       = sumTo N.nV (fun j => if j = r then yL.getD (N.nN + j) 0 else 0) := by
-    apply sumTo_congr
+    apply rhs_sumTo_congr
     intro j hj
     have hi : N.nN + j < N.nY := by unfold Net.nY; omega
     have hnone : N.nodes[N.nN + j]? = none := List.getElem?_eq_none (by unfold Net.nN; omega)
